@@ -24,6 +24,8 @@
 
 #include <yaclib_std/chrono>
 
+#include <memory>
+
 #include <deque>
 #include <vector>
 
@@ -908,6 +910,87 @@ void ReturnedTaskCase(Ctx& ctx) {
   ctx.Check(bad_tag.load(kRlx) == 0, "ran-on-executor", "C12,C13,C05",
             "a Task coroutine returned from Then(e1, step) ran a part of its body outside e1 (%d times)", bad_tag.load(kRlx));
 }
+
+// A never-started Task that is overwritten by move assignment is an abandoned Task: no head/value callback runs, the
+// chain is cancelled with StopError exactly once and every captured functor is released - at the latest when the
+// moved-from object dies.  The Task that took its place still works.
+void TaskOverwriteCase(Ctx& ctx) {
+  ResetTags();
+  int with = static_cast<int>(ctx.rng.Below(3));  // 0 a temporary ready Task, 1 a named unstarted pipeline, 2 an empty Task
+  int code = static_cast<int>(ctx.rng.In(1, 1000));
+  bool observer_last = ctx.rng.Coin();
+  ctx.Note("unstarted lazy pipeline overwritten by move assignment with %s; Result observer %s ",
+           with == 0 ? "a temporary MakeTask" : with == 1 ? "a named unstarted Schedule pipeline" : "an empty Task",
+           observer_last ? "last" : "in the middle");
+  auto pool = yaclib::MakeFairThreadPool(1);
+  TagExec e1{1, *pool};
+  auto token = std::make_shared<int>(7);
+  std::atomic<int> head_ran{0}, value_ran{0}, stop_seen{0}, other_seen{0}, new_head{0};
+  int got = -9;
+  {
+    auto head = [token, &head_ran]() -> R {
+      head_ran.fetch_add(1, kRlx);
+      return Tracked{1};
+    };
+    auto value_cb = [token, &value_ran](Tracked v) {
+      value_ran.fetch_add(1, kRlx);
+      return Tracked{v.v + 1};
+    };
+    auto observer = [token, &stop_seen, &other_seen](R&& r) -> R {
+      if (r.State() == yaclib::ResultState::Error && std::as_const(r).Error().code == -1) {
+        stop_seen.fetch_add(1, kRlx);
+      } else {
+        other_seen.fetch_add(1, kRlx);
+      }
+      return std::move(r);
+    };
+    yaclib::Task<Tracked, MyError> t;
+    if (observer_last) {
+      t = yaclib::Schedule<MyError>(e1, head).ThenInline(value_cb).ThenInline(observer);
+    } else {
+      t = yaclib::Schedule<MyError>(e1, head).ThenInline(observer).ThenInline(value_cb);
+    }
+    // `head`, `value_cb`, `observer` (the originals) + the three copies inside the pipeline
+    if (with == 0) {
+      t = yaclib::MakeTask<Tracked, MyError>(Tracked{code});
+    } else if (with == 1) {
+      auto other = yaclib::Schedule<MyError>(e1, [&new_head, code]() -> R {
+        new_head.fetch_add(1, kRlx);
+        return Tracked{code};
+      });
+      t = std::move(other);
+      // `other` dies here, with whatever the assignment left in it
+    } else {
+      yaclib::Task<Tracked, MyError> empty;
+      t = std::move(empty);
+    }
+    ctx.Check(stop_seen.load(kRlx) == 1 && other_seen.load(kRlx) == 0, "abandoned-sees-stop", "C12",
+              "after overwriting an unstarted pipeline its Result observer saw StopError %d times and something else %d times",
+              stop_seen.load(kRlx), other_seen.load(kRlx));
+    if (with != 2) {
+      ctx.Check(t.Valid(), "overwritten-task-valid", "C12", "the Task that was assigned is not Valid()");
+      if (t.Valid()) {
+        auto r = std::move(t).Get();
+        got = r.State() == yaclib::ResultState::Value ? std::as_const(r).Value().v : -1;
+      }
+      ctx.Check(got == code, "final-result", "C12", "the Task moved over an unstarted pipeline delivered %d, expected %d", got, code);
+    } else {
+      ctx.Check(!t.Valid(), "overwritten-task-valid", "C12", "a Task overwritten with an empty Task is still Valid()");
+    }
+  }
+  pool->Stop();
+  pool->Wait();
+  ctx.SetNontrivial(true);
+  ctx.Observe(static_cast<u64>(with * 2 + (observer_last ? 1 : 0)));
+  ctx.Check(head_ran.load(kRlx) == 0 && value_ran.load(kRlx) == 0, "abandoned-runs-nothing", "C12",
+            "an overwritten unstarted pipeline ran its head %d times and its value callback %d times", head_ran.load(kRlx),
+            value_ran.load(kRlx));
+  ctx.Check(with != 1 || new_head.load(kRlx) == 1, "lazy-started-by-step", "C12", "the Task that took the place ran its head %d times",
+            new_head.load(kRlx));
+  ctx.Check(token.use_count() == 1, "abandoned-releases-functors", "C12,C03",
+            "%ld references to the functors' capture are still alive after the overwritten pipeline and every local are gone",
+            static_cast<long>(token.use_count()) - 1);
+}
 }  // namespace
 
 VF_CELL(co_future, "future-coroutine/live", "C13,C03,C04,C06", 30) {
@@ -930,6 +1013,9 @@ VF_CELL(co_shared_stopped, "shared-future-coroutine/stopped-target", "C13,C03,C0
 }
 VF_CELL(co_returned_task, "task-coroutine/returned-from-step", "C13,C12,C03,C05", 6) {
   ReturnedTaskCase(ctx);
+}
+VF_CELL(co_task_overwrite, "lazy-task-overwritten", "C12,C03", 4) {
+  TaskOverwriteCase(ctx);
 }
 VF_CELL(co_await_task, "await-lazy-task", "C13,C12,C03,C05", 12) {
   AwaitTaskCase(ctx);
